@@ -3,6 +3,8 @@ use crate::graphgen::{gen_graph, GenOpts, GraphCase, WeightMode};
 use crate::rng::Rng;
 use crate::store::{err_code, p_q, Toks};
 use graphrs::algorithms::community::{louvain, partitions};
+use rand::seq::SliceRandom;
+use rand::SeedableRng;
 use std::collections::HashSet;
 use std::sync::mpsc;
 use std::time::Duration;
@@ -124,13 +126,24 @@ pub struct LouvCase {
 }
 impl LouvCase {
     pub fn request(&self) -> String {
-        format!("louv {} {} {} {} {}", self.g.tokens(), self.weighted as u8, self.res.0, self.res.1, self.seed)
+        // perms[L] = the permutation `shuffle` applies to a vector of length L for this seed (same crate, same call as louvain.rs)
+        let n = self.g.nodes.len();
+        let mut perms = format!("{}", n + 1);
+        for l in 0..=n {
+            let mut v: Vec<usize> = (0..l).collect();
+            let mut rng = rand::rngs::StdRng::seed_from_u64(self.seed);
+            v.shuffle(&mut rng);
+            perms.push_str(&format!(" {}", l));
+            for x in v { perms.push_str(&format!(" {}", x)); }
+        }
+        format!("louv {} {} {} {} {} {}", self.g.tokens(), self.weighted as u8, self.res.0, self.res.1, self.seed, perms)
     }
     pub fn parse(t: &mut Toks) -> LouvCase {
         let g = GraphCase::parse(t);
         let weighted = t.next() != 0;
         let res = (t.next(), t.next() as u32);
         let seed = t.next() as u64;
+        let _perms = t.list(|t| t.list(|t| t.next()));
         LouvCase { g, weighted, res, seed }
     }
 }
